@@ -32,6 +32,7 @@ ASSUMPTIONS = [
 SHARDS = {"quick": 6, "thorough": 16}
 MIN_REACH = {
     "points_selected": {"quick": 2500, "thorough": 60000},
+    "sweeps_with_an_empty_internal_axis_named_by_a_constant": {"quick": 4, "thorough": 60},
     "sweeps_of_a_thousand_and_more_settings": {"quick": 3, "thorough": 8},
     "positional_cases_named_by_the_function_signature": {"quick": 10, "thorough": 200},
     "df_rows_checked": {"quick": 400, "thorough": 5000},
@@ -87,6 +88,14 @@ def _gen(rng, entry):
         c["var_names_spelling"] = rng.choice(["str", "tuple", "list"]) if nout == 1 else rng.choice(["tuple", "list"])
         c["var_dims_spelling"] = rng.choice(["dict", "dict_tuplevals", "onetoone", "items", "grouped", "str"])
         c["dim_coords"] = {d: rng.choice(["var_coords", "constant", "none"]) for d in DIMSIZE}
+        if any("w" in o["dims"] for o in outs) and rng.random() < 0.3:
+            # DEGENERATE internal axis: 'w' has exactly one entry, or none at all (no frequencies requested) - still a dimension,
+            # still labelled by whatever names it
+            c["wsize"] = rng.choice([0, 1])
+            if c["wsize"] == 0:
+                for o in outs:
+                    if o["dims"] == ["w", "t"]:
+                        o["dims"] = ["t", "w"]       # (a nested list with an empty LEADING axis has no second axis)
     excl = swept + list(DIMSIZE)
     c["constants"] = gens.gen_constants(rng, 2, exclude=excl)
     c["run_constants"] = {}
@@ -251,6 +260,7 @@ def run_varying(ctx, case):
 
 def run_case(ctx, case):
     import xyzpy
+    DS_ = dict(DIMSIZE, **({"w": case["wsize"]} if case.get("wsize") is not None else {}))
     if case.get("varying"):
         return run_varying(ctx, case)
     entry = case["entry"]
@@ -295,11 +305,11 @@ def run_case(ctx, case):
         def spec(o):
             if not o["dims"]:
                 return o["type"]
-            return ("c" if o.get("vary_dtype") else "a") + "x".join(str(DIMSIZE[d]) for d in o["dims"])
+            return ("c" if o.get("vary_dtype") else "a") + "x".join(str(DS_[d]) for d in o["dims"])
         if len(outs) == 1:
             o = outs[0]
             kind = ({"s": "float", "i": "int", "b": "bool", "t": "str"}[o["type"]] if not o["dims"]
-                    else ("carray:" if o.get("vary_dtype") else "array:") + "x".join(str(DIMSIZE[d]) for d in o["dims"]))
+                    else ("carray:" if o.get("vary_dtype") else "array:") + "x".join(str(DS_[d]) for d in o["dims"]))
         else:
             kind = "multi:" + ",".join(spec(o) for o in outs)
         if any(o.get("vary_dtype") for o in outs):
@@ -312,7 +322,7 @@ def run_case(ctx, case):
         used = sorted({d for o in outs for d in o["dims"]})
         dim_values, var_coords, const_dims = {}, {}, {}
         for d in used:
-            vals = [round(0.1 * (i + 1), 3) for i in range(DIMSIZE[d])] if d == "t" else ["p%d" % i for i in range(DIMSIZE[d])]
+            vals = [round(0.1 * (i + 1), 3) for i in range(DS_[d])] if d == "t" else ["p%d" % i for i in range(DS_[d])]
             how = case["dim_coords"][d]
             if how == "var_coords":
                 var_coords[d] = vals
@@ -320,11 +330,14 @@ def run_case(ctx, case):
             elif how == "constant":
                 const_dims[d] = vals
                 dim_values[d] = vals
-        dimsize = DIMSIZE
+        dimsize = DS_
         if not var_coords:
             var_coords = None if rs % 2 else {}
 
     stored_constants = {**case["constants"], **const_dims}
+    if case.get("wsize") is not None:
+        ctx.count("sweeps_with_an_internal_axis_of_one_or_no_entries")
+        ctx.count("sweeps_with_an_empty_internal_axis_named_by_a_constant", 1 if case["wsize"] == 0 and "w" in const_dims else 0)
     run_constants = dict(case["run_constants"])
     eff_constants = {**stored_constants, **run_constants}
     resources = dict(case["resources"])
